@@ -677,6 +677,14 @@ func runC16(r *mon.Run) {
 		chk("Quo(-1,5)", z.Quo(apd.NewBigInt(-1), apd.NewBigInt(5)))
 		chk("Rem(-10,5)", z.Rem(apd.NewBigInt(-10), apd.NewBigInt(5)))
 		chk("Neg(0)", z.Neg(apd.NewBigInt(0)))
+		// fixed: GCD left a negative zero in a cofactor (inline and heap-backed receivers)
+		var g, cx, cy apd.BigInt
+		g.GCD(&cx, &cy, apd.NewBigInt(-4), apd.NewBigInt(2))
+		chk("GCD(x,y,-4,2).x", &cx)
+		var hx apd.BigInt
+		hx.SetString("123456789012345678901234567890123456789012345678901234567890", 10)
+		g.GCD(&hx, &cy, apd.NewBigInt(-4), apd.NewBigInt(2))
+		chk("GCD(x heap,y,-4,2).x", &hx)
 	})
 	for _, bm := range bigMethods {
 		r.Require("bigint/"+bm.name, 200)
